@@ -232,6 +232,36 @@ def r4_isolation(ctx):
     accept_loop_rules(ctx, "R16.4", SK + "start_socks5_server", "socks5::handle_socks5_connection", "socks5")
 
 
+def r6_a_fully_read_request_is_passed_on(ctx):
+    """read_connection_request refuses only what it cannot read or parse (version, address type, length): once the last field
+    — the port — has been read, it hands the request to the caller, whatever the values are.  The caller owns the replies
+    ('command not supported', the tunnel's failure code); a refusal *here*, after a complete request, ends the connection
+    without any reply (`UDP ASSOCIATE 0.0.0.0:0`, the form RFC 1928 tells clients to send, has port 0)"""
+    body = co(ctx, "R16.6", SK + "read_connection_request")
+    if body is None:
+        return
+    cfg, o = ctx.cfg(body), ctx.origins(body)
+    reads = calls_norm(body, "AsyncReadExt::read_exact", "AsyncReadExt::read_u16", "AsyncReadExt::read_u8", "AsyncReadExt::read")
+    last = [r for r in reads if not any(q.bb in cfg.reach_after(r.bb) for q in reads if q.bb != r.bb)]
+    if not ctx.floor("R16.6", "final read (the port) of read_connection_request", len(last), 1):
+        return
+    after = cfg.reach_after(last[0].bb)
+    bad = []
+    for kind, bi, si, rv in body.defs().get(0, []):
+        if bi not in after:
+            continue
+        if kind == "assign" and rv["r"] == "aggregate" and rv["kind"].get("variant") == "Err":
+            bad.append(bi)
+        elif kind == "call":
+            t = body.blocks[bi]["term"]
+            src = o.of_operand(t["args"][0]) if t.get("args") else None
+            if not any(isinstance(s_, tuple) and s_ and s_[0] == "call" and len(s_) > 2 and s_[2] == last[0].bb for s_ in subterms(src)):
+                bad.append(bi)
+    ctx.ob("R16.6", "read_connection_request:nothing-is-refused-after-the-last-field", not bad, last[0].site, "after the port has been read the only failure is that read's own error" if not bad else
+           "read_connection_request can return an error after the whole request has been read (line %s): the caller never sees the request, so neither 'command not supported' nor a failure code is sent — "
+           "the connection just ends" % body.blocks[bad[0]]["tspan"]["line"])
+
+
 def run(ctx):
     from . import effects
     effects.check_property(ctx, "C16")    # R16.E: no operation on shared protocol state outside the reviewed table
@@ -239,8 +269,10 @@ def run(ctx):
     r1_negotiation(ctx)
     r2_connect_only(ctx)
     r3_reads(ctx)
+    r6_a_fully_read_request_is_passed_on(ctx)
     r4_isolation(ctx)
     r5_reply_format(ctx)
     C10.r6_front_ends(ctx)
+    C10.r4_client_wait(ctx)      # 'succeeded' means the server's verdict: create_proxy_stream returns Ok only after the SYNACK wait, for every stream of every session (the peer version is not yet known on a fresh one)
     C07.r3_atyp_tables(ctx)
     C07.r9_decoded_address_is_the_bytes_read(ctx)
